@@ -223,6 +223,7 @@ def model_case(c):
     parts += [V.hexf(m) for m in c["maxf"]]
     parts += [str(int(c["szd"])), str(int(c["same"]))] + [str(int(v["sub"])) for v in vs]
     parts += [str(int(c["hideJ"]))]
+    parts += [str(int(v["hk"] is not None)) for v in vs]
     parts += [str(len(c["steps"]))]
     for st in c["steps"]:
         parts += [V.hexf(colvar_value(v, z)) for v, z in zip(vs, st["z"])]
@@ -488,6 +489,12 @@ def oracle(c, impl_steps, state=None):
         hj = c["hideJ"] and c["same"] and any(kind(v) == "dist" and not v["sub"] for v in c["vars"]) and c.get("T", 0.0) != 0.0
         if not zt and not vz and hj:
             sig = "sample:hideJacobian-same-step-adds-jacobian"
+        # hideJacobian, lagged forces, and a distance variable to which no bias applies a force (applyBias off, no
+        # restraint): the compensating force -fj never reaches the atoms but fj is added to the measured force
+        hn = (c["hideJ"] and not c["same"] and not c["apply"] and c.get("T", 0.0) != 0.0
+              and any(kind(v) == "dist" and v["hk"] is None for v in c["vars"]))
+        if not zt and not vz and hn:
+            sig = "sample:hideJacobian-without-applied-force"
         bad.append((sig, "stored gradient sums differ from minus the summed attributed samples: element %d is %s, expected %s%s"
                     % (k, last["sum"][k], float(sm[k]), (" (measured total force exactly zero at (step,variable) %s)" % zt[:3]) if zt else ((" (value exactly 0 at (step,variable) %s)" % vz[:3]) if vz else ""))))
     else:
@@ -624,12 +631,30 @@ def judge_hidej_same(c, steps):
     return None
 
 
+def witness_hidej_noforce():
+    """W5 (known defect): hideJacobian, lagged forces, applyBias off, no other bias, distance variable: the samples must be
+    the engine force 1 (Jacobian hidden); the implementation records 1 + fj."""
+    v = _v1(kind="dist", onesite=False, lower=1.0, upper=3.0)
+    return _c1("W5", v, [(1.5, 1.0, False)] * 3, same=False, apply=False, hideJ=True, T=1000.0)
+
+
+def judge_hidej_noforce(c, steps):
+    got, n = steps[-1]["sum"][0], steps[-1]["cnt"][0]
+    fj = jac_force(c, c["vars"][0], 1.5)
+    if n != 2 or not close(got, -2.0):
+        return ("hideJacobian on, applyBias off, no other bias, lagged total forces, distance r = 1.5 at T = 1000 K (fj = 2kT/r = %s), engine force 1: the two samples "
+                "must be 1 (Jacobian hidden), stored sum -2; the implementation stores %s with count %s: the variable reports the applied force %s = -fj but has no "
+                "f_cv_apply_force, so nothing reaches the atoms, while collect_cvc_total_forces adds fj to the measured force" % (fj, got, n, steps[-1]["af"][0]))
+    return None
+
+
 WITNESSES = ((witness_zero_total, "sample:subtractAppliedForce-zero-total-force", judge_zero_total),
              (witness_zero_total_abf, "sample:subtractAppliedForce-zero-total-force", judge_zero_total_abf),
              (witness_value_zero, "sample:force-dropped-at-value-zero", judge_value_zero),
              (witness_zero_mean, "force:periodic-zero-mean-during-ramp", judge_zero_mean),
              (witness_zero_mean_ramp, "force:periodic-zero-mean-during-ramp", judge_zero_mean_ramp),
-             (witness_hidej_same, "sample:hideJacobian-same-step-adds-jacobian", judge_hidej_same))
+             (witness_hidej_same, "sample:hideJacobian-same-step-adds-jacobian", judge_hidej_same),
+             (witness_hidej_noforce, "sample:hideJacobian-without-applied-force", judge_hidej_noforce))
 
 
 # ------------------------------------------------------------------------------- running
